@@ -793,6 +793,8 @@ template<typename Ad> static void run_case(const Case& cs, FILE* out)
 		if (po == "fmove" && (fc != sBefore || !s2c.empty())) fail("post-move-from-source-wrong");
 		if (po == "ilist" && Ad::is_stdish && Ad::crew && s2c != Vals({400001, 400004})) fail("post-ilist-wrong");
 		tie += " S2=" + idstr(s2) + " s2c=" + show(s2c) + " F=" + idstr(fId) + " fc=" + show(fc);
+		// after Clear(): the fields the generated Clear (cxx2coq) computes -- storage pointers null again
+		tie += std::string(" s2s=") + (po != "clear" ? "-" : s2 == -1 ? "null" : Ad::structure(S));
 		// ---- every container that has a manager: it must allocate through exactly that manager from now on
 		if (Ad::id(S) != -1)
 		{
